@@ -12,7 +12,7 @@ def main():
             "quick_cmd": f"./check {pid} --tier quick",
             "thorough_cmd": f"./check {pid} --tier thorough",
             "evidence_file": f"/verif/evidence/{pid}.json",
-            "replay_cmd_template": "cat {path}   # a Kani concrete-playback unit test or a replay script; header says how to run it",
+            "replay_cmd_template": "./check --replay {path}",
             "engine": P.get("engine", "kani"),
             "level_claimed": {"category": "model_checking", "text": P["level_text"], "design_ref": P.get("design_ref", "DESIGN.md §3 " + pid)},
             "level_note": P["level_note"],
